@@ -1,6 +1,9 @@
 package tm
 
-import "fmt"
+import (
+	"fmt"
+	"strings"
+)
 
 // Entry is an alphabet entry: a constructor with its side arguments bound
 // to trees of the side pool.
@@ -191,6 +194,18 @@ func StringPairs(t *Term, alphabet []string, f func(v *Term)) {
 func QuirkTerms() []*Term {
 	var ts []*Term
 	for _, q := range Quirks {
+		if q.Kind == KLeaf {
+			base := instantiate(Entry{Op: q}, nil)
+			ts = append(ts, base.Clone().FillDefault())
+			for _, w := range Entries(Wrappers, 1) {
+				w1 := instantiate(w, base.Clone())
+				ts = append(ts, w1.Clone().FillDefault())
+				for _, w2 := range Entries(CoreOps(Wrappers), 1) {
+					ts = append(ts, instantiate(w2, w1.Clone()).FillDefault())
+				}
+			}
+			continue
+		}
 		for _, l := range Entries(CoreOps(Leaves), 1) {
 			base := instantiate(Entry{Op: q}, instantiate(l, nil))
 			ts = append(ts, base.Clone().FillDefault())
@@ -251,6 +266,36 @@ func WithoutQuirks(t *Term) *Term {
 // op called opName (searching the spine, then side trees) to str (raw).
 func withStr(t *Term, slot, str string) *Term { return setStr(t.FillDefault(), t.Op.Name, slot, str) }
 
+// LongString is 64 KiB of plain ASCII.
+var LongString = "L" + strings.Repeat("y", 65535)
+
+func codeSweepExtras() []*Term {
+	var out []*Term
+	for _, k := range GrpcCodeSweep {
+		n := fmt.Sprintf("WrapWithGrpcCode#%d", k)
+		out = append(out,
+			mk(n, mk("New", nil)).FillDefault(),
+			mk("Wrap", mk(n, mk("GoNew", nil))).FillDefault(),
+			mk(n, mk("WrapWithGrpcCode", mk("New", nil))).FillDefault(),
+			mk("WrapWithGrpcCode", mk(n, mk("New", nil))).FillDefault(),
+			mk("HopThenWrap", mk(n, mk("New", nil))).FillDefault(),
+		)
+	}
+	return out
+}
+
+// setTok is setStr with the slot's token spliced into the string.
+func setTok(t *Term, opName, slot, str string) *Term {
+	done := false
+	t.EachSlot(func(k int, o *Term, i int) {
+		if !done && o.Op.Name == opName && o.Op.Slots[i].Name == slot {
+			o.S[i] = Splice(str, Token(k))
+			done = true
+		}
+	})
+	return t
+}
+
 func setStr(t *Term, opName, slot, str string) *Term {
 	done := false
 	t.EachSlot(func(k int, o *Term, i int) {
@@ -295,7 +340,28 @@ func Extras() []*Term {
 		mk("HandleAsAssertionFailure", mk("WithAssertionFailure", mk("WithHint", mk("New", nil)))).FillDefault(),
 		mk("HandleAsAssertionFailure", mk("AssertionFailedf", nil)).FillDefault(),
 		mk("Wrap", mk("WithContextTags_safe", mk("WithContextTags_int2", mk("New", nil)))).FillDefault(),
+		// a detail-only issue link below a multi-cause node, also hidden
+		mk("Join2", mk("WithIssueLink_detailonly", mk("GoNew", nil)), mk("GoNew", nil)).FillDefault(),
+		mk("Handled", mk("Join2", mk("WithIssueLink_detailonly", mk("New", nil)), mk("GoNew", nil))).FillDefault(),
+		mk("GoJoin2", mk("Wrap", mk("WithIssueLink_urlonly", mk("New", nil))), mk("GoNew", nil)).FillDefault(),
+		// deep chains below a multi-cause node (verbose indentation by depth)
+		mk("Join2", mk("Wrap", mk("Wrap", mk("Wrap", mk("Wrap", mk("Wrap", mk("Wrap", mk("GoNew", nil))))))), mk("Wrap", mk("GoNew", nil))).FillDefault(),
+		mk("WithHint", mk("GoJoin2", mk("Wrap", mk("Wrap", mk("Wrap", mk("Wrap", mk("Wrap", mk("Join2", mk("New", nil), mk("GoNew", nil))))))), mk("GoNew", nil))).FillDefault(),
+		mk("Wrap", mk("GoJoin1", mk("GoNew", nil))).FillDefault(),
+		mk("Join2", mk("GoJoin1", mk("GoNew", nil)), mk("GoNew", nil)).FillDefault(),
+		mk("ut.UnwrapW", mk("GoJoin1", mk("Wrap", mk("GoNew", nil)))).FillDefault(),
+		// one very long unsafe string: any size-dependent path (truncation,
+		// buffering) whose threshold lies inside it is exercised
+		setTok(mk("Newf_u", nil).FillDefault(), "Newf_u", "arg", LongString),
+		setTok(mk("Wrapf_u", mk("New", nil)).FillDefault(), "Wrapf_u", "arg", LongString),
+		setTok(mk("Wrap", mk("WithHint", mk("GoNew", nil))).FillDefault(), "WithHint", "hint", LongString),
+		setTok(mk("WithDetail", mk("Wrap", mk("New", nil))).FillDefault(), "WithDetail", "detail", LongString),
+		setTok(mk("Wrap", mk("GoNew", nil)).FillDefault(), "GoNew", "msg", LongString),
+		// unsorted telemetry keys, repeated keys
+		setStr(setStr(mk("WithTelemetry2", mk("GoNew", nil)).FillDefault(), "WithTelemetry2", "key1", "zeta"), "WithTelemetry2", "key2", "alpha"),
+		setStr(setStr(mk("WithTelemetry2", mk("GoNew", nil)).FillDefault(), "WithTelemetry2", "key1", "dup"), "WithTelemetry2", "key2", "dup"),
 	}
+	ts = append(ts, codeSweepExtras()...)
 	return ts
 }
 
